@@ -27,11 +27,15 @@ VALS = ['5', '"v"', '[1]', 'None', '0.5', '{"z": 1}']
 
 def list_ops(r):
     k, k2, v = r.choice(LIST_KEYS), r.choice(LIST_KEYS), r.choice(VALS)
+    st = r.choice(['1', '2', '3', '4', '7', '-1', '-2', '-3', '0', '10000', '1.5', 'None', '"a"', 'True'])
     return r.choice([f'push(c, {v})', 'pop(c)', f'pop(c, {k})', f'insert(c, {k}, {v})', f'remove(c, {v})', f'c[{k}]',
                      f'c[{k}] = {v}', f'c[{k}] += 1', f'del c[{k}]', f'index_of(c, {v})', 'len(c)', f'{v} in c',
                      f'c[{k}:{k2}]', f'c.push({v})', f'c[{k}] *= 2', 'c + [1]', 'sorted(c, v => 0)', 'reversed(c)',
                      f'push(c, {v}, {v})', f'c.push(1, 2, 3)', f'insert(c, {k}, {v}, {v})', 'c | push(1, 2)', f'pop(c, {k}, 1)',
-                     'push(enumerate(c)[0][1], 9)', 'apply(pe => [push(pe[0][1], 8), pe][1], enumerate(c))', 'apply(q => push(q[0][1], 6), [enumerate(c)[0]])'])
+                     'push(enumerate(c)[0][1], 9)', 'apply(pe => [push(pe[0][1], 8), pe][1], enumerate(c))', 'apply(q => push(q[0][1], 6), [enumerate(c)[0]])',
+                     # the step-only form [::k] (SqProps.C14.slice_with_positive_step_takes_every_kth), the other spellings with empty
+                     # parts, and a write to the slice's result (a new object: c must not change)
+                     f'c[::{st}]', f'c[::{st}]', f'c[{k}::]', f'c[:{k}:]', f'push(c[::{st}], 9)', f'apply(sl => [push(sl, 8), sl, c], c[::{st}])'])
 
 
 def dict_ops(r):
